@@ -142,11 +142,12 @@ FirstKid(t) == NextKid(t, 0)
 CharKind(c) == c \in {"char", "uchar", "c16", "c32", "wchar"}
 IsCharArr(t) == K(t) = "arr" /\ K(TT[t].e) = "sc" /\ CharKind(TT[TT[t].e].c)
 (* 6.7.9p14/15: which literal prefixes may initialise an array of element kind c *)
-LitPrefixes(c) == CASE c \in {"char", "uchar"} -> {"", "u8"} [] c = "c16" -> {"u"} [] c = "c32" -> {"U"}
+LitPrefixes(c) == CASE c = "char" -> {""} [] c = "uchar" -> {"u8"} [] c = "c16" -> {"u"} [] c = "c32" -> {"U"}
                  [] c = "wchar" -> {"L"} [] OTHER -> {}
 (* the i-th code unit of the literal of length l: a b c d; the wide ones have U+03B2 second *)
 Unit(pre, i) == IF i = 2 /\ pre \in {"u", "U", "L"} THEN 946 ELSE 96 + i
-StrLens(n) == IF n = 0 THEN {0, 2} ELSE {l \in {0, 2, n - 1, n} : l >= 0}
+(* lengths tried for an array of n elements: shorter (zero fill), exactly with the NUL, NUL dropped; "" where n <= 3 *)
+StrLens(n) == IF n = 0 THEN {0, 2} ELSE IF n <= 3 THEN {0, n - 1, n} ELSE {2, n - 1, n}
 
 RECURSIVE TypeAt(_, _)
 TypeAt(t, q) == IF q = <<>> THEN t ELSE TypeAt(KidT(t, q[1]), Tail(q))
